@@ -93,3 +93,18 @@ Proof.
   repeat (first [apply Forall2_nil | apply Forall2_cons]); unfold same_train;
   cbn [tr_spikes tr_start tr_end fst snd In]; repeat split; intros; tauto.
 Qed.
+
+(* ---- executed instance (Q, extracted to OCaml and run against /repo) = the real-number functions
+   the theorems above are about: kernel-checked parametricity bridge (Bridge.v).  qL = map Q2R etc. ---- *)
+From Coq Require Import QArith Qreals.
+From PS Require Import Bridge.
+Local Close Scope Q_scope.
+Theorem C13_exec_sort_unique_transfer : forall l : list Q, qL (sort_unique QOps l) = sort_unique ROps (qL l).
+Proof. exact sort_unique_transfer. Qed.
+Print Assumptions C13_exec_sort_unique_transfer.
+Theorem C13_exec_reconcile_transfer : forall (eps : Q) (l : list train), map qTrain (reconcile QOps eps l) = reconcile ROps (Q2R eps) (map qTrain l).
+Proof. exact reconcile_transfer. Qed.
+Print Assumptions C13_exec_reconcile_transfer.
+Theorem C13_exec_reconcile_spec_transfer : forall (eps : Q) (l : list (list Q * Q * Q)), map qTrain (reconcile_spec QOps eps l) = reconcile_spec ROps (Q2R eps) (map qTrain l).
+Proof. exact reconcile_spec_transfer. Qed.
+Print Assumptions C13_exec_reconcile_spec_transfer.
